@@ -148,7 +148,7 @@ def run_harness(spec, slot, prop, logdir, playback=False):
         # per-loop bounds name loops by mangled symbol, and the mangling of kestrel-cli's own symbols contains a crate
         # disambiguator that depends on the dependency graph: discover it from a codegen-only build of this harness
         spec = dict(spec)
-        cg = core.kani_cmd(dict(spec, unwindset=None, cbmc_args=None), slot) + ["--only-codegen"]
+        cg = core.kani_cmd(dict(spec, unwindset=[], cbmc_args=[]), slot) + ["--only-codegen"]
         rc0, out0, _, _ = core.run_cmd(cg, slot.tree, core.kani_env(), 900, mem_gb=20, log=log + ".codegen")
         dis = None
         for base, dirs, files in os.walk(os.path.join(slot.target, "kani")):
